@@ -30,6 +30,22 @@ struct InnerHash {
   }
 };
 
+// aggregates whose encoded size is / is not independent of the value (SERIALIZED_SIZE_COMPLEXITY)
+struct Fixed {
+  float x {0};
+  double y {0};
+  BABYLON_SERIALIZABLE((x, 1)(y, 2))
+};
+struct DerivedFixed : public Inner {
+  float w {0};
+  BABYLON_SERIALIZABLE_WITH_BASE((Inner, 1), (w, 2))
+};
+struct PtrCell {
+  ::std::unique_ptr<float> p;
+  ::std::shared_ptr<double> q;
+  BABYLON_SERIALIZABLE((p, 1)(q, 2))
+};
+
 struct Outer : public Inner {
   Inner a;
   ::std::unique_ptr<Inner> p;
@@ -124,6 +140,12 @@ void instantiate() {
   round_trip_default<::std::unordered_map<Inner, int32_t, InnerHash>>();
   round_trip_default<::std::unordered_set<Inner, InnerHash>>();
   round_trip_default<::std::list<Inner>>();
+  round_trip_default<::std::vector<Fixed>>();
+  round_trip_default<::std::vector<DerivedFixed>>();
+  round_trip_default<::std::vector<PtrCell>>();
+  round_trip_default<::std::unique_ptr<float>>();
+  round_trip_default<::std::shared_ptr<double>>();
+  round_trip_default<Fixed[2]>();
   round_trip_default<::std::unique_ptr<Inner>>();
   round_trip_default<::std::vector<::std::unordered_map<Inner, int32_t, InnerHash>>>();
   round_trip_default<::std::unique_ptr<int32_t>>();
